@@ -301,6 +301,48 @@ pub fn run(tier: Tier) -> Report {
             }
         }
     }
+    // the same in predicted pictures, where a macroblock can carry a quantizer update without any
+    // coded block: every DQUANT triple x every pattern of {no coded block, coded blocks} for the
+    // first two updates (INTER+Q and INTER4V+Q), the third macroblock always has coefficients
+    {
+        let reference = Pic { hdr: shdr(48, 16, 0, 0, 5, 0), mbs: (0..3).map(|i| Mb::intra_flat(90 + 20 * i as u8)).collect() };
+        for q in [1u8, 2, 3, 29, 30, 31] {
+            for a in [-2i8, -1, 1, 2] {
+                for b in [-2i8, -1, 1, 2] {
+                    for c in [-2i8, -1, 1, 2] {
+                        for coded in 0..4usize {
+                            for four in [false, true] {
+                                let mbs: Vec<Mb> = [a, b, c]
+                                    .iter()
+                                    .enumerate()
+                                    .map(|(i, &dq)| {
+                                        let mut blocks: [Blk; 6] = Default::default();
+                                        if i == 2 || (coded >> i) & 1 == 1 {
+                                            blocks[i].ev = vec![ev_auto(true, 0, 10, false)];
+                                            blocks[5].ev = vec![ev_auto(true, 2, -10, false)];
+                                        }
+                                        if four && i < 2 {
+                                            Mb::Coded { kind: Kind::Inter4VQ, dquant: dq, mvd: vec![(0, 0); 4], blocks }
+                                        } else {
+                                            Mb::Coded { kind: Kind::InterQ, dquant: dq, mvd: vec![(0, 0)], blocks }
+                                        }
+                                    })
+                                    .collect();
+                                let pic = Pic { hdr: shdr(48, 16, 1, 1, q, 0), mbs };
+                                let mut d = Dec::new(1);
+                                let mut st = CmpStats::default();
+                                n_tr += 1;
+                                let _ = d.step(&reference, "C11", &mut st);
+                                if let Err(f) = d.step(&pic, "C11", &mut st) {
+                                    rep.violation_lazy(&format!("C11/quantizer-update-sequence-inter[{}]", f.sig.rsplit('/').next().unwrap_or("")), || (format!("P picture, PQUANT {q}, DQUANT sequence ({a},{b},{c}), coded-block pattern {coded:02b}, four-vector = {four}: {}", f.what), d.replay("dquant sequence in a predicted picture")));
+                                }
+                            }
+                        }
+                    }
+                }
+            }
+        }
+    }
     rep.add_transitions(n_dq + n_tr);
     rep.add_states(n_dq / 2 + n_tr);
 
@@ -308,7 +350,7 @@ pub fn run(tier: Tier) -> Report {
     rep.extra("samples_compared", json!(g.samples));
     rep.extra("samples_accepted_inside_rounding_band", json!(g.ties));
     rep.set_rule(
-        "(a) every quantizer 1..31 x level +-1..1023 x zig-zag position 0..63 x {with, without INTRADC} through the hooked dequantiser, exact coefficient and position, plus all ordered triples of calls over a 54-letter (quantizer, level) alphabet on one thread (purity); (b) end to end: every quantizer x every level of every codable form (8-bit escape in H.263 and Sorenson v0, 7- and 11-bit escapes in Sorenson v1, short codes) in 16x16 intra pictures against the reference decoder; (c) all 256 INTRADC codes x 6 blocks; (d) 31 x 4 DQUANT updates x 2 versions against the picture coded with the clamped quantizer; non-trivial = end-to-end pictures",
+        "(a) every quantizer 1..31 x level +-1..1023 x zig-zag position 0..63 x {with, without INTRADC} through the hooked dequantiser, exact coefficient and position, plus all ordered triples of calls over a 54-letter (quantizer, level) alphabet on one thread (purity); (b) end to end: every quantizer x every level of every codable form (8-bit escape in H.263 and Sorenson v0, 7- and 11-bit escapes in Sorenson v1, short codes) in 16x16 intra pictures against the reference decoder; (c) all 256 INTRADC codes x 6 blocks; (d) 31 x 4 DQUANT updates x 2 versions against the picture coded with the clamped quantizer, all DQUANT triples next to the limits in intra pictures and in predicted pictures with and without coded blocks in the updating macroblocks; non-trivial = end-to-end pictures",
     );
     rep.sample(json!({"direct": {"q": 31, "level": 1023, "position": 63, "expected": dequant(1023, 31)}}));
     rep.sample(json!({"end_to_end": "Sorenson v1 q=31, blocks carry 11-bit levels 529..534 at zig-zag position 8"}));
